@@ -130,7 +130,11 @@ class Program:
                     ast.fix_missing_locations(tree)
                     tree = ast.parse(text)
                 else:
-                    text, tree = s, ast.parse(s)
+                    import warnings
+
+                    with warnings.catch_warnings():
+                        warnings.simplefilter("ignore")
+                        text, tree = s, ast.parse(s)
             else:
                 if not os.path.exists(path):
                     raise AnalysisError(f"module vanished: {path}")
